@@ -82,7 +82,9 @@ func runC13(c *eng.Ctx) {
 		} else {
 			elem := eng.SelObj(info, loop.Value)
 			isValidate := func(n *eng.GNode) bool {
-				return len(g.CallsAt(n, func(o types.Object, call *ast.CallExpr) bool { return o == validate && len(call.Args) >= 1 && eng.SelObj(info, call.Args[0]) == elem })) > 0
+				return len(g.CallsAt(n, func(o types.Object, call *ast.CallExpr) bool {
+					return o == validate && len(call.Args) >= 1 && eng.SelObj(info, call.Args[0]) == elem
+				})) > 0
 			}
 			r1.Check(loopBodyMustPass(g, loop, isValidate), f.Key+" validates-each", loop.Pos(), "every decoded document passes ValidateOperationSpec", "a decoded document can be skipped without validation (e.g. when its `operation` is empty): a misspelled document is silently dropped and the rest of the file is applied")
 			// conversion only after a nil validation error
